@@ -384,7 +384,7 @@ claim("C16", "write_bit / read_bit of the stack coder, queue encoder and queue d
       "Kani parts bounded to <= 10 bits of content over u8 words (code generic in Word)", "function contracts against a ghost bit sequence (Verus on extracted text, Kani)")
 claim("C17", "Every operation of Cursor / Reverse<Cursor> / Vec against the stack/queue contract from every (buffer,pos) with <= 4 symbolic words; SmallVec and adapters bounded.",
       "Kani bit-precise on the real impls incl. get_unchecked; longer buffers by genericity in the length", "function contracts per backend operation (Kani)")
-claim("C18", "Size/emptiness/exhaustion queries equal the length of the export at the same state (ANS all widths, range encoder all situations, bit coders).", K_NOTE + "; entropy/KL diagnostics not claimed (floating-point transcendental functions)", "function contracts (Kani)")
+claim("C18", "Size/emptiness/exhaustion queries equal the length of the export at the same state (ANS all widths, range encoder all situations, bit coders).", K_NOTE + "; entropy / cross entropy / KL diagnostics: bounded stand-in only (two concrete models, concrete reference distributions incl. zeros and a subnormal entry, CBMC's log2 model, tolerance 1e-6), never counted as proved", "function contracts (Kani)")
 claim("C19", "Constructors accept exactly the valid inputs within the stated bounds; clean panics permitted.", "bounded tables (<= 3 entries); LeakyQuantizer::new / UniformModel::new complete over narrow types", "function contracts (Kani)")
 claim("C20", "Unsafe preconditions (unchecked indexing, NonZero::new_unchecked, unreachable_unchecked) and overflow checks discharged on every harness path; Cursor::buf_mut is a recorded finding.",
       "Kani's automatic checks; only code reached by the harnesses of C01-C19", "invariant-based safety contracts (Kani automatic obligations)")
@@ -746,6 +746,17 @@ kani("models::quantizer_search_i8_mid", ["C03", "C10", "C20"], kind="bounded", b
 kani("models::entropy_is_finite_u8_p8", ["C18"], kind="bounded", bound="uniform models with 2..3 symbols, u8, P = 8 = Probability::BITS; CBMC's log2 model", timeout=1200,
      fns=[M + "model.rs::IterableEntropyModel::entropy_base2"],
      text="sanity contract only: entropy_base2 is finite and within [0, P] (the exact value is not decided: transcendental)")
+kani("models::same_named_float_constructors_normalization_p4", ["C05", "C19"], kind="bounded", bound="one concrete weight table [1,3,2,0] (trailing zero entry), u8, P = 4, normalization in {None, 6, 8, 12}; every symbol, every quantile", timeout=900,
+     fns=[M + "categorical.rs::fast_quantized_cdf", M + "categorical/contiguous.rs::ContiguousCategoricalEntropyModel::from_floating_point_probabilities_fast",
+          M + "categorical/lazy_contiguous.rs::LazyContiguousCategoricalEntropyModel::{from_floating_point_probabilities_fast,left_cumulative_and_probability,quantile_function}",
+          M + "categorical/lookup_contiguous.rs::ContiguousLookupDecoderModel::from_floating_point_probabilities_fast"],
+     text="eager, lazy and lookup models built by the same-named float constructor from the SAME (weights, normalization) are the same fixed-point model, also for a caller-provided normalization larger than the sum")
+kani("models::diagnostics_concrete_u8_p8", ["C18"], kind="bounded", bound="one concrete model (UniformModel<u8,8>::new(3): 85/256, 85/256, 86/256, PRECISION == Probability::BITS), reference distributions [1/2,1/4,1/4], [0,0,1], [1,1e-310,0]; f64; CBMC's log2 model; tolerance 1e-6", timeout=900,
+     fns=[M + "model.rs::IterableEntropyModel::{entropy_base2,cross_entropy_base2,reverse_cross_entropy_base2,kl_divergence_base2,reverse_kl_divergence_base2}", M + "uniform.rs::<UniformModel as IterableEntropyModel>::symbol_table"],
+     text="entropy, cross entropy, KL in both directions == textbook definitions on the exact fixed-point probabilities (unequal bins; exact zeros contribute nothing; a subnormal entry stays finite)")
+kani("models::diagnostics_concrete_categorical_u16_p12", ["C18"], kind="bounded", bound="one concrete table 1/2, 1/4, 1/4 at u16, P = 12; reference distribution [1/4,1/2,1/4]; f64 (entropy also f32); CBMC's log2 model; tolerance 1e-6 (f32: 1e-4)", timeout=900,
+     fns=[M + "model.rs::IterableEntropyModel::{entropy_base2,cross_entropy_base2,reverse_cross_entropy_base2,kl_divergence_base2,reverse_kl_divergence_base2}", M + "categorical/contiguous.rs::<ContiguousCategoricalEntropyModel as IterableEntropyModel>::symbol_table"],
+     text="the same five diagnostics through the eager contiguous categorical model at PRECISION < Probability::BITS")
 kani("range::u8_u32_p8::enc_potential", ["C12"], tier="thorough", timeout=7200, fns=[QE],
      text="range potential inequality and <= 1 word per symbol at State = 4 Words (measured: 31 min)")
 for _p in ("p8", "p5"):
